@@ -2,11 +2,15 @@ SETUP_CMD = "bin/setup"
 HOOKS = {
     "guard": "--cfg hydro_project_hydro_verif",
     "enable": "RUSTFLAGS='--cfg hydro_project_hydro_verif' for every harness build (bin/check sets it); harness workspaces under /verif/engines use path dependencies on /repo",
-    "baseline_off_cmd": "cd /repo && cargo nextest run --workspace --no-fail-fast --test-threads 8 --offline || cargo test --workspace --no-fail-fast --offline",
-    "source_commits": [],
+    "baseline_off_cmd": "cd /repo && cargo nextest run --workspace --no-fail-fast --tool-config-file pb:/w/lib/nextest.toml --profile pb --test-threads 8 --offline",
+    "source_commits": ["1bf37154677", "e570523f069", "52259581cd4", "97366fe488e"],
     "add_only": True,
 }
 ENGINES = [
+    {"name": "dfirx", "path": "engines/dfirx", "serves_properties": [],
+     "kind_free_text": "cargo workspace: generated dfir_syntax! programs compiled by the real proc-macro and driven with per-tick input histories; oracles = reference interpreter of the documented operator semantics, shape-variant differential, reference/loop semantics"},
+    {"name": "hydro", "path": "engines/hydro", "serves_properties": [],
+     "kind_free_text": "cargo workspace: stageleft flow crates compiled through the production code generator (generate_embedded) and driven tick by tick under harness-chosen tick partitions; simulator-driven monitors hosted in #[test]s"},
     {"name": "rt", "path": "engines/rt", "serves_properties": ["C17"],
      "kind_free_text": "cargo workspace of native runtime monitors (reference-model / protocol oracles over the real library code), optionally re-run under Miri"},
 ]
